@@ -371,7 +371,7 @@ class C15(core.Check):
         plan = {'mode': 'raw', 'data': base64.b64encode(data).decode(), 'exit': 0, 'all_calls': True}
         r = shellrun.run_server_request([], src, plan, workdir=self.tmp)
         cnt = {'mode_server': 1, 'fault_' + fid.split(':')[0]: 1}
-        if r.timed_out:
+        if r.timed_out and not ('Traceback (most recent call last)' in r.err and 'Address already in use' not in r.err):
             return dict(ok=True, nt=False, key=None, cnt={'timeouts': 1}, obs=None, harness_error='server did not come up')
         detail = dict(fault=fid, mode='server', doc=case['doc'], http=r.rc, stderr=r.err[-1500:], body=r.out[:300].decode('utf-8', 'replace'))
         if 'Traceback (most recent call last)' in r.err:
